@@ -357,7 +357,10 @@ class PayloadSA(Payload):
         if len(data):
             offset = 0
             while offset < len(data):
-                more, _, length = unpack_from('>BBH', data, offset)
+                try:
+                    more, _, length = unpack_from('>BBH', data, offset)
+                except struct_error:
+                    raise InvalidSyntax('Error parsing Proposal header')
                 start = offset + 4
                 end = offset + length
                 proposal = Proposal.parse(data[start:end])
@@ -765,6 +768,8 @@ class PayloadSK(Payload):
     def decrypt(self, crypto):
         iv = self.ciphertext[:crypto.cipher.block_size]
         ciphertext = self.ciphertext[crypto.cipher.block_size:-crypto.integrity.hash_size]
+        if len(iv) != crypto.cipher.block_size or not ciphertext or len(ciphertext) % crypto.cipher.block_size:
+            raise InvalidSyntax('Invalid length of the encrypted payload')
         decrypted = crypto.cipher.decrypt(crypto.sk_e, bytes(iv), bytes(ciphertext))
         padlen = decrypted[-1]
         return iv, decrypted[:-1 - padlen]
@@ -869,6 +874,8 @@ class Message:
             except struct_error as ex:
                 raise InvalidSyntax(ex)
             critical = bool(critical >> 7)
+            if length < 4:
+                raise InvalidSyntax(f'Invalid payload length {length}')
             start = offset + 4
             end = offset + length
             # Parse the payload. If not known and critical, raise exception
